@@ -98,10 +98,19 @@ def m1(ctx):
     ctx.check(not bad, "ids-unfiltered", "the class loop ranges over ids() with no dropping adaptor", "ematch_all iterates ids() through %s" % bad, where_of(b, lp[0]))
     ext = [c for c in b.calls if c.callee and c.callee.name in ("extend", "push", "append") and not b.blocks[c.bb]["cleanup"]]
     ctx.floor("result accumulation sites in ematch_all", len(ext), 1)
+    # (the matcher may hand its states back through a `&mut Vec<State>` out-parameter: that vector then is its result)
+    out_vecs = []
+    for c in b.calls:
+        if c.callee and c.callee.name == "ematch_impl" and not b.blocks[c.bb]["cleanup"]:
+            for a in c.args:
+                pl = mir.op_place(a)
+                if pl is not None and b.local_ty(pl["l"]).startswith("&mut") and "Vec<" in b.local_ty(pl["l"]):
+                    out_vecs.append(strip_role(b.role_of_operand(a)))
     for c in ext:
         r = b.role_of_operand(c.args[1])
         bad = sorted({x[1] for x in role_walk(r) if isinstance(x, tuple) and x[0] == "call" and x[1] in BAD_ADAPTORS})
-        ctx.check(not bad and role_mentions_call(r, "ematch_impl"), "results-unfiltered", "every state returned for a class is turned into a substitution (no filter between)",
+        from_matcher = role_mentions_call(r, "ematch_impl") or any(strip_role(x) in out_vecs for x in role_walk(r) if isinstance(x, tuple))
+        ctx.check(not bad and from_matcher, "results-unfiltered", "every state returned for a class is turned into a substitution (no filter between)",
                   "ematch_all drops matcher results through %s" % bad, where_of(b, c.bb))
         C.check_only_allowed_skips(ctx, b, c.bb, [], "ematch_all", "accumulating the matches of a class")
     imp = [c for c in b.calls if c.callee and c.callee.name == "ematch_impl"]
